@@ -569,10 +569,19 @@ def gen_programs(tier, seed):
 
 
 # --------------------------------------------------------------------------- running
-def run_harness(cases, exe):
-    text = "\n".join(cases) + "\n"
-    rc, lines = vplib.run_lines([exe], text, timeout=1500)
-    return rc, lines
+def run_harness(cases, exe, chunk=250, max_stuck=12):
+    """Runs the cases in chunks; gives up early when many cases hang or crash (each costs its full deadline,
+    and one is already a violation). Returns (rc, lines, cases actually run)."""
+    lines, stuck, rc = [], 0, 0
+    for i in range(0, len(cases), chunk):
+        part = cases[i:i + chunk]
+        r, out = vplib.run_lines([exe], "\n".join(part) + "\n", timeout=600)
+        rc = rc or r
+        lines += out
+        stuck += sum(1 for l in out if l.endswith("\tHANG\t-") or l.endswith("\tCRASH\t-"))
+        if r != 0 or len(out) != len(part) or stuck > max_stuck:
+            return rc, lines, cases[:i + len(part)]
+    return rc, lines, cases
 
 
 def evaluate(lines, v, stats, listed, samples):
@@ -706,7 +715,12 @@ def run(tier, seed):
         "programs: everything the build added is retained (retain_all_current_data after build), as instructions hold data addresses",
     ]
     listed = {f["id"] for f in vplib.findings_for(PID)}
-    pr = vplib.prove(PID, ["Proofs/C19"], extra_targets=["Extract/OptExtract.vo"])
+    if os.environ.get("VERIF_C19_NOPROVE"):
+        # used only by the author's mutation script: keeps the window in which /repo is mutated short
+        pr = {"ok": True, "failures": [], "props": [], "lemmas": [], "axioms": [], "wall_s": 0}
+        v.notes.append("prove step skipped (VERIF_C19_NOPROVE)")
+    else:
+        pr = vplib.prove(PID, ["Proofs/C19"], extra_targets=["Extract/OptExtract.vo"])
     for f in pr["failures"]:
         v.tie_failure("prove: " + f)
     v.coverage.update(vplib.proof_coverage(
@@ -723,14 +737,16 @@ def run(tier, seed):
     stats = new_stats()
     samples = []
     t0 = time.time()
-    rc, lines = run_harness(cases, exe)
-    if rc != 0 or len(lines) != len(cases):
-        v.tie_failure("optimize harness rc=%s lines=%d/%d" % (rc, len(lines), len(cases)))
+    rc, lines, ran = run_harness(cases, exe)
+    if rc != 0 or len(lines) != len(ran):
+        v.tie_failure("optimize harness rc=%s lines=%d/%d" % (rc, len(lines), len(ran)))
+    if len(ran) != len(cases):
+        v.notes.append("stopped after %d of %d cases: too many hanging or crashing cases" % (len(ran), len(cases)))
     evaluate(lines, v, stats, listed, samples)
     stats["harness_wall_s"] = round(time.time() - t0, 1)
     if okm:
         t1 = time.time()
-        rcm, mlines = vplib.run_lines([vplib.OCAML_BUILD + "/opt_driver"], "\n".join(lines) + "\n", timeout=1500)
+        rcm, mlines = vplib.run_lines([vplib.OCAML_BUILD + "/opt_driver"], "\n".join(lines) + "\n", timeout=400)
         if rcm != 0:
             v.tie_failure("opt_driver rc=%s %s" % (rcm, mlines[-1:]))
         else:
@@ -758,7 +774,7 @@ def replay(obj):
         print("replay names a broken tie, not an input:", obj.get("no_longer_checks"))
         return run("quick", obj.get("seed", 0))
     ok, out = vplib.cargo_build("debug", bins=["optimize"])
-    rc, lines = run_harness(cases, vplib.harness_bin("optimize"))
+    rc, lines, _ = run_harness(cases, vplib.harness_bin("optimize"))
     v = Verdict(PID, "replay", obj.get("seed", 0))
     stats = new_stats()
     evaluate(lines, v, stats, {f["id"] for f in vplib.findings_for(PID)}, [])
